@@ -361,64 +361,137 @@ Lemma default_port_is_5222 :
   default_port = itoa 5222 /\ default_port = [53; 50; 50; 50]%N.
 Proof. split; reflexivity. Qed.
 
-(* ---- T6: transport choice ---- *)
-Lemma scheme_prefixed_spec a :
-  scheme_prefixed a = true <-> (exists r, a = s_ws ++ r) \/ (exists r, a = s_wss ++ r).
-Proof. unfold scheme_prefixed. rewrite orb_true_iff, !has_prefix_spec. reflexivity. Qed.
+(* ---- T6: transport choice (repaired rule: ws / wss in any case, then "://") ---- *)
+Lemma str_eqb_eq a : forall b, str_eqb a b = true <-> a = b.
+Proof.
+  induction a as [|x a IH]; intros [|y b]; cbn [str_eqb]; try (split; [discriminate|intros H; discriminate]).
+  - split; reflexivity.
+  - rewrite andb_true_iff, N.eqb_eq, IH. split; [intros [-> ->]; reflexivity|intros H; injection H; auto].
+Qed.
 
-Lemma T6_scheme a : (exists r, a = s_ws ++ r) \/ (exists r, a = s_wss ++ r) ->
+Lemma has_url_scheme_spec a sch :
+  has_url_scheme a sch = true <-> exists u r, a = u ++ s_sep ++ r /\ map lower u = sch.
+Proof.
+  unfold has_url_scheme. rewrite !andb_true_iff, !str_eqb_eq, Nat.leb_le. split.
+  - intros [[Hl Hu] Hs].
+    exists (firstn (length sch) a), (skipn 3 (skipn (length sch) a)). split; [|exact Hu].
+    rewrite <- Hs, firstn_skipn, firstn_skipn. reflexivity.
+  - intros (u & r & -> & Hu).
+    assert (Hn : length sch = length u) by (rewrite <- Hu, map_length; reflexivity).
+    rewrite Hn, firstn_exact, skipn_exact. repeat split.
+    + rewrite !app_length. cbn. lia.
+    + exact Hu.
+Qed.
+
+Lemma scheme_prefixed_spec a :
+  scheme_prefixed a = true <->
+  exists u r, a = u ++ s_sep ++ r /\ (map lower u = sch_ws \/ map lower u = sch_wss).
+Proof.
+  unfold scheme_prefixed. rewrite orb_true_iff, !has_url_scheme_spec. split.
+  - intros [(u & r & Ha & Hu)|(u & r & Ha & Hu)]; exists u, r; auto.
+  - intros (u & r & Ha & [Hu|Hu]); [left|right]; exists u, r; auto.
+Qed.
+
+Lemma T6_scheme a :
+  (exists u r, a = u ++ s_sep ++ r /\ (map lower u = sch_ws \/ map lower u = sch_wss)) ->
   client_transport a = WebSocket a /\ component_transport a = NotSupported.
 Proof.
   intros H. apply scheme_prefixed_spec in H.
   unfold client_transport, component_transport. rewrite H. split; reflexivity.
 Qed.
 
-Lemma T6_other a : (forall r, a <> s_ws ++ r) -> (forall r, a <> s_wss ++ r) ->
+Lemma T6_other a :
+  (forall u r, a = u ++ s_sep ++ r -> map lower u <> sch_ws /\ map lower u <> sch_wss) ->
   client_transport a = Tcp (ensure_port a 5222) /\
   component_transport a = Tcp (ensure_port a 5222).
 Proof.
-  intros H1 H2. unfold client_transport, component_transport.
+  intros H. unfold client_transport, component_transport.
   destruct (scheme_prefixed a) eqn:E; [|split; reflexivity].
-  apply scheme_prefixed_spec in E as [[r Hr]|[r Hr]]; [destruct (H1 r Hr)|destruct (H2 r Hr)].
+  apply scheme_prefixed_spec in E as (u & r & Ha & Hu).
+  destruct (H u r Ha) as [H1 H2]. destruct Hu; contradiction.
 Qed.
 
-(* which of the host forms can carry a scheme prefix *)
+Lemma ws_is_secure_spec a :
+  ws_is_secure a = true <-> exists u r, a = u ++ s_sep ++ r /\ map lower u = sch_wss.
+Proof. apply has_url_scheme_spec. Qed.
+
+(* which of the host forms can carry a scheme *)
 Definition starts_w (x : str) : bool :=
-  match x with c :: _ => N.eqb 119 c | [] => false end.
+  match x with c :: _ => N.eqb (lower c) 119 | [] => false end.
+
+Lemma scheme_has_colon a : scheme_prefixed a = true -> has c_colon a = true.
+Proof.
+  intros H. apply scheme_prefixed_spec in H as (u & r & -> & _).
+  rewrite has_app. cbn. apply orb_true_r.
+Qed.
+Lemma scheme_starts_w a : scheme_prefixed a = true -> starts_w a = true.
+Proof.
+  intros H. apply scheme_prefixed_spec in H as (u & r & -> & Hu).
+  destruct u as [|x u]; [destruct Hu; discriminate|].
+  cbn [app starts_w]. apply N.eqb_eq. cbn [map] in Hu. unfold sch_ws, sch_wss in Hu.
+  destruct Hu as [Hu|Hu]; injection Hu as Hx _; exact Hx.
+Qed.
 
 Lemma not_scheme_no_colon h : has c_colon h = false -> scheme_prefixed h = false.
 Proof.
   intros Hc. destruct (scheme_prefixed h) eqn:E; [|reflexivity].
-  apply scheme_prefixed_spec in E as [[r ->]|[r ->]]; cbn in Hc; discriminate.
+  apply scheme_has_colon in E. congruence.
 Qed.
-Lemma not_scheme_bracketed s : scheme_prefixed (c_lbr :: s) = false.
-Proof. reflexivity. Qed.
 Lemma not_scheme_not_w x : starts_w x = false -> scheme_prefixed x = false.
 Proof.
-  destruct x as [|c x]; intros H; [reflexivity|].
-  unfold starts_w in H. unfold scheme_prefixed, s_ws, s_wss. cbn [has_prefix].
-  rewrite H. reflexivity.
+  intros Hw. destruct (scheme_prefixed x) eqn:E; [|reflexivity].
+  apply scheme_starts_w in E. congruence.
 Qed.
+Lemma not_scheme_bracketed s : scheme_prefixed (c_lbr :: s) = false.
+Proof. apply not_scheme_not_w. reflexivity. Qed.
 
-(* host:port carries a scheme prefix exactly when the host is "ws" or "wss" *)
-Lemma scheme_host_port h p : has c_colon h = false ->
-  scheme_prefixed (h ++ c_colon :: p) = true -> h = [119; 115]%N \/ h = [119; 115; 115]%N.
+Lemma eqb_colon_lower x : N.eqb c_colon (lower x) = N.eqb c_colon x.
 Proof.
-  intros Hc E. apply scheme_prefixed_spec in E as [[r Hr]|[r Hr]].
-  - destruct h as [|a [|b [|c h]]]; cbn in Hr; try discriminate.
-    + injection Hr as -> -> _. left; reflexivity.
-    + injection Hr as -> -> -> _. cbn in Hc. discriminate.
-  - destruct h as [|a [|b [|c [|d h]]]]; cbn in Hr; try discriminate.
-    + injection Hr as -> -> -> _. right; reflexivity.
-    + injection Hr as -> -> -> -> _. cbn in Hc. discriminate.
+  unfold lower, c_colon. destruct ((65 <=? x)%N && (x <=? 90)%N) eqn:E; [|reflexivity].
+  apply andb_true_iff in E as [E1 E2]. apply N.leb_le in E1, E2.
+  destruct (N.eqb_spec 58 (x + 32)), (N.eqb_spec 58 x); try reflexivity; lia.
+Qed.
+Lemma has_colon_lower u : has c_colon (map lower u) = has c_colon u.
+Proof.
+  induction u as [|x u IH]; [reflexivity|].
+  cbn [map]. rewrite !has_cons, eqb_colon_lower, IH. reflexivity.
 Qed.
 
+Lemma first_sep_unique c a : forall a' b b',
+  has c a = false -> has c a' = false -> a ++ c :: b = a' ++ c :: b' -> a = a' /\ b = b'.
+Proof.
+  induction a as [|x a IH]; intros [|y a'] b b' Ha Ha' E; cbn [app] in E.
+  - injection E as ->. split; reflexivity.
+  - injection E as <- _. rewrite has_cons, N.eqb_refl in Ha'. discriminate.
+  - injection E as -> _. rewrite has_cons, N.eqb_refl in Ha. discriminate.
+  - injection E as -> E. rewrite has_cons in Ha, Ha'.
+    apply orb_false_iff in Ha as [_ Ha]. apply orb_false_iff in Ha' as [_ Ha'].
+    destruct (IH a' b b' Ha Ha' E) as [-> ->]. split; reflexivity.
+Qed.
+
+(* host:port is a ws / wss URL only when the "port" starts with "//" *)
 Lemma not_scheme_host_port h p : has c_colon h = false ->
-  h <> [119; 115]%N -> h <> [119; 115; 115]%N ->
-  scheme_prefixed (h ++ c_colon :: p) = false.
+  has_prefix [c_slash; c_slash] p = false -> scheme_prefixed (h ++ c_colon :: p) = false.
 Proof.
-  intros Hc H1 H2. destruct (scheme_prefixed (h ++ c_colon :: p)) eqn:E; [|reflexivity].
-  destruct (scheme_host_port h p Hc E); contradiction.
+  intros Hc Hp. destruct (scheme_prefixed (h ++ c_colon :: p)) eqn:E; [|reflexivity].
+  apply scheme_prefixed_spec in E as (u & r & Ha & Hu).
+  assert (Hu' : has c_colon u = false).
+  { rewrite <- has_colon_lower. destruct Hu as [-> | ->]; reflexivity. }
+  change (u ++ s_sep ++ r) with (u ++ c_colon :: c_slash :: c_slash :: r) in Ha.
+  destruct (first_sep_unique _ _ _ _ _ Hc Hu' Ha) as [_ ->].
+  cbn in Hp. discriminate.
+Qed.
+
+Lemma digits_no_slashes p : digits p = true -> has_prefix [c_slash; c_slash] p = false.
+Proof.
+  unfold digits. intros H. apply andb_true_iff in H as [_ H].
+  destruct p as [|c p]; [reflexivity|]. cbn [forallb] in H. apply andb_true_iff in H as [Hc _].
+  cbn [has_prefix]. destruct (N.eqb_spec c_slash c) as [<-|]; [discriminate|reflexivity].
+Qed.
+Lemma digits_port_ok p : digits p = true -> port_ok p = true.
+Proof.
+  unfold digits, port_ok, no_brackets. intros H. apply andb_true_iff in H as [Hn Hd].
+  rewrite Hn, !(fun c Hc => digit_clean c p Hc Hd) by reflexivity. reflexivity.
 Qed.
 
 (* ---- the address both constructors dial, per host form ---- *)
@@ -442,24 +515,73 @@ Proof.
   apply name_or_v4_inv in H as (_ & Hc & _). exact (not_scheme_no_colon h Hc).
 Qed.
 Lemma dial_T2 h p : name_or_v4 h = true -> port_ok p = true ->
-  h <> [119; 115]%N -> h <> [119; 115; 115]%N -> dials (h ++ c_colon :: p) h p.
+  has_prefix [c_slash; c_slash] p = false -> dials (h ++ c_colon :: p) h p.
 Proof.
-  intros H P H1 H2. apply dials_intro; [|exact (proj2 (T2 h p 5222 H P))].
-  apply name_or_v4_inv in H as (_ & Hc & _). exact (not_scheme_host_port h p Hc H1 H2).
+  intros H P S. apply dials_intro; [|exact (proj2 (T2 h p 5222 H P))].
+  apply name_or_v4_inv in H as (_ & Hc & _). exact (not_scheme_host_port h p Hc S).
+Qed.
+Lemma dial_T2_numeric h p : name_or_v4 h = true -> digits p = true ->
+  dials (h ++ c_colon :: p) h p.
+Proof.
+  intros H D. exact (dial_T2 h p H (digits_port_ok p D) (digits_no_slashes p D)).
 Qed.
 Lemma dial_T3 x : v6 x = true -> dials (c_lbr :: x ++ [c_rbr]) x default_port.
-Proof. intros H. apply dials_intro; [reflexivity|exact (proj2 (T3 x 5222 H))]. Qed.
+Proof.
+  intros H. apply dials_intro; [apply not_scheme_bracketed|exact (proj2 (T3 x 5222 H))].
+Qed.
 Lemma dial_T4 x p : v6 x = true -> port_ok p = true ->
   dials (c_lbr :: x ++ c_rbr :: c_colon :: p) x p.
-Proof. intros H P. apply dials_intro; [reflexivity|exact (proj2 (T4 x p 5222 H P))]. Qed.
+Proof.
+  intros H P. apply dials_intro; [apply not_scheme_bracketed|exact (proj2 (T4 x p 5222 H P))].
+Qed.
 Lemma dial_T5 x : v6 x = true -> starts_w x = false -> dials x x default_port.
 Proof.
   intros H W. apply dials_intro; [exact (not_scheme_not_w x W)|exact (proj2 (T5 x 5222 H))].
 Qed.
 
-(* the overlap of the two clauses of the property: a host called "ws" / "wss"
-   with an explicit port reads as a ws: / wss: scheme *)
-Lemma ws_host_with_port p :
-  client_transport ([119; 115]%N ++ c_colon :: p) = WebSocket ([119; 115]%N ++ c_colon :: p) /\
-  client_transport ([119; 115; 115]%N ++ c_colon :: p) = WebSocket ([119; 115; 115]%N ++ c_colon :: p).
-Proof. split; reflexivity. Qed.
+(* a host that is called "ws" or "wss" is a host like any other (hunter finding f1) *)
+Lemma ws_named_host_dials p : digits p = true ->
+  dials (sch_ws ++ c_colon :: p) sch_ws p /\ dials (sch_wss ++ c_colon :: p) sch_wss p.
+Proof. intros D. split; apply dial_T2_numeric; try exact D; reflexivity. Qed.
+
+(* ---- the certificate checker (NewChecker / extractParams), per host form ---- *)
+(* [checks a host port]: the checker accepts a, takes host as the host and dials a
+   valid host:port naming exactly host and port *)
+Definition checks (a host port : str) : Prop :=
+  exists full, checker_params a = Some (full, host) /\
+               split_host_port full = SplitOk host port.
+
+Lemma checks_intro a host port :
+  split_host_port (ensure_port a 5222) = SplitOk host port -> port <> [] ->
+  checks a host port.
+Proof.
+  intros Hs Hp. exists (ensure_port a 5222). unfold checker_params. rewrite Hs.
+  destruct port as [|c port]; [contradiction|]. split; reflexivity.
+Qed.
+
+Lemma default_port_nonempty : default_port <> [].
+Proof. discriminate. Qed.
+
+Lemma check_T1 h : name_or_v4 h = true -> checks h h default_port.
+Proof.
+  intros H. apply checks_intro; [exact (proj2 (T1 h 5222 H))|exact default_port_nonempty].
+Qed.
+Lemma check_T2 h p : name_or_v4 h = true -> port_ok p = true -> checks (h ++ c_colon :: p) h p.
+Proof.
+  intros H P. apply checks_intro; [exact (proj2 (T2 h p 5222 H P))|].
+  apply port_ok_inv in P as [P _]. exact P.
+Qed.
+Lemma check_T3 x : v6 x = true -> checks (c_lbr :: x ++ [c_rbr]) x default_port.
+Proof.
+  intros H. apply checks_intro; [exact (proj2 (T3 x 5222 H))|exact default_port_nonempty].
+Qed.
+Lemma check_T4 x p : v6 x = true -> port_ok p = true ->
+  checks (c_lbr :: x ++ c_rbr :: c_colon :: p) x p.
+Proof.
+  intros H P. apply checks_intro; [exact (proj2 (T4 x p 5222 H P))|].
+  apply port_ok_inv in P as [P _]. exact P.
+Qed.
+Lemma check_T5 x : v6 x = true -> checks x x default_port.
+Proof.
+  intros H. apply checks_intro; [exact (proj2 (T5 x 5222 H))|exact default_port_nonempty].
+Qed.
